@@ -482,12 +482,30 @@ func (x *Exec) havocObject(st *State, t types.Type, v Value) {
 	if t == nil {
 		return
 	}
+	if mt, isMap := t.Underlying().(*types.Map); isMap {
+		// a map passed to an abstracted callee: its content is unknown afterwards
+		if sc, ok := v.(Sc); ok && sc.T.S.Eq(IntSort) {
+			x.noteWrite("map:has", sc.T)
+			h := x.mapHasArr(st)
+			st.heap["map:has"] = Store(h, sc.T, x.freshTerm("hvmap", ArrSort(IntSort, BoolSort)))
+			for _, c := range x.layout(mt.Elem()) {
+				key := "map:val:" + typeKey(mt.Elem()) + c.Suffix
+				arr := x.heapGet(st, key, ArrSort(IntSort, ArrSort(IntSort, c.S)))
+				st.heap[key] = Store(arr, sc.T, x.freshTerm("hvmap", ArrSort(IntSort, c.S)))
+			}
+		}
+		return
+	}
 	pt, ok := t.Underlying().(*types.Pointer)
 	if !ok {
 		return
 	}
 	su, ok := pt.Elem().Underlying().(*types.Struct)
 	if !ok {
+		// a pointer to a plain cell (*error, *int, *[]T): the cell is unknown afterwards
+		if sc, isSc := v.(Sc); isSc && sc.T.S.Eq(IntSort) {
+			x.havocHeapAt(st, typeKey(pt.Elem()), pt.Elem(), sc.T)
+		}
 		return
 	}
 	sc, ok := v.(Sc)
